@@ -121,6 +121,12 @@ def _analyse_helper(repo, col, fi):
     try:
         val = as_pw(ev.call(fi, [kin.A(p) for p in params]))
     except Und as e:
+        uses_exp = any(isinstance(n, ast.Call) and unparse(n.func).split(".")[-1] in ("exp", "save_exp", "expm1") for n in ast.walk(fi.node))
+        if not uses_exp:
+            # a helper without exponentials (e.g. one that combines a pair of rates) cannot hide an exp(u) - 1 singularity; it
+            # is analysed where it is called
+            col.ok("R-C03-helper", fi, fi.name, f"no exponential in this helper (not evaluable with scalar arguments: {e})", node=fi.node)
+            return info
         col.unk("R-C03-helper", fi, fi.name, f"outside the analysable fragment: {e}", node=fi.node)
         return info
     # main region = the piece whose guards are all False (or the single piece)
